@@ -27,10 +27,11 @@ def ends(x):
 
 def scope_key(e):
     """Reuse scope of an execution as the statement defines it: run / swarm / worker."""
+    # "the whole run by default; one swarm, or one worker, when the pool scope is narrowed": decided by the configured pool scope alone
     scopes = (e.get("pool_scope") or "").split()
-    if e.get("spawner") == "lxc" and "swarm" not in scopes:
+    if "swarm" not in scopes:
         return ("worker", e["w"])
-    if e.get("spawner") == "remote" and "cluster" not in scopes:
+    if "cluster" not in scopes:
         return ("swarm", e.get("swarm"))
     return ("run",)
 
@@ -152,11 +153,10 @@ def _scope_for_worker(wid, x, scn):
             return scope_key(e)
     # no execution by this worker: use scenario parameters
     scopes = str(scn.params.get("pool_scope", "own swarm cluster shared")).split()
-    spawner = "remote" if "cluster" in wid else ("process" if wid == "net0" else "lxc")
-    if spawner == "lxc" and "swarm" not in scopes:
+    if "swarm" not in scopes:
         return ("worker", wid)
-    if spawner == "remote" and "cluster" not in scopes:
-        return ("swarm", wid.split(".")[0])
+    if "cluster" not in scopes:
+        return ("swarm", wid.split(".")[0] if "." in wid else "localhost")
     return ("run",)
 
 
